@@ -748,6 +748,9 @@ func reflectCompare(a, b reflect.Value) bool {
 	if a.CanInt() {
 		return a.Int() < b.Int()
 	}
+	if a.CanUint() {
+		return a.Uint() < b.Uint()
+	}
 	if a.CanFloat() {
 		return a.Float() < b.Float()
 	}
